@@ -476,6 +476,78 @@ macro_rules! wildcard_arm_harness {
 wildcard_arm_harness!(c11_wildcard_arm_ci, false, Wildcard);
 wildcard_arm_harness!(c11_wildcard_arm_strict, true, StrictWildcard);
 
+// ---- C11: the `matches` arm and the engine's regex wrapper ---------------
+// regex-automata cannot be compiled into the harness (its builder crashes
+// kani-compiler), so the ENGINE (`regex_automata::meta::Regex::is_match`) is
+// replaced by a recording oracle with an arbitrary answer; what runs for real
+// is the arm's wiring, `<Regex as Compare>::compare` and `Regex::is_match`:
+// the engine is asked exactly once, about exactly the value's bytes, unanchored
+// over the whole value, and its answer is the result; absent value => false.
+use regex_automata::meta::Regex as DepMetaRegex;
+
+static mut RX_ANSWER: bool = false;
+static mut RX_CALLS: u32 = 0;
+static mut RX_HAY_PTR: usize = 0;
+static mut RX_HAY_LEN: usize = 0;
+static mut RX_WHOLE_UNANCHORED: bool = false;
+
+fn meta_is_match_stub<'h, I: Into<regex_automata::Input<'h>>>(_this: &DepMetaRegex, input: I) -> bool {
+    let inp: regex_automata::Input<'h> = input.into();
+    unsafe {
+        RX_CALLS += 1;
+        RX_HAY_PTR = inp.haystack().as_ptr() as usize;
+        RX_HAY_LEN = inp.haystack().len();
+        RX_WHOLE_UNANCHORED = inp.start() == 0
+            && inp.end() == inp.haystack().len()
+            && matches!(inp.get_anchored(), regex_automata::Anchored::No);
+        RX_ANSWER
+    }
+}
+
+#[kani::proof]
+#[kani::unwind(4)]
+#[kani::stub(crate::ast::index_expr::IndexExpr::compile_with, compile_with_stub)]
+#[kani::stub(rand::rngs::thread::rng, rng_stub)]
+#[kani::stub(DepMetaRegex::is_match, meta_is_match_stub)]
+fn c11_matches_arm() {
+    let s = mk_scheme(Type::Bytes, kani::any());
+    let l: [u8; 2] = kani::any();
+    let llen: usize = kani::any();
+    kani::assume(llen <= 2);
+    let answer: bool = kani::any();
+    unsafe {
+        LHS_KIND = 3;
+        LHS_BYTES = [0; 16];
+        LHS_BYTES[0] = l[0];
+        LHS_BYTES[1] = l[1];
+        LHS_BYTES_LEN = llen;
+        RX_ANSWER = answer;
+    }
+    // Under Kani the engine is the oracle above and the wrapper's fields are never read.
+    #[cfg(not(test))]
+    let rx: crate::rhs_types::Regex = unsafe { std::mem::MaybeUninit::uninit().assume_init() };
+    // Native replay: a real pattern whose real answer on every value is the counterexample's answer.
+    #[cfg(test)]
+    let rx = crate::rhs_types::Regex::new(
+        if answer { "(?s-u:.*)" } else { "[^\\x00-\\xff]" },
+        crate::rhs_types::RegexFormat::Literal,
+        &crate::ParserSettings::default(),
+    )
+    .unwrap();
+    let (default, got) = run(field_expr(&s, ComparisonOpExpr::Matches(rx)));
+    assert!(got == answer, "`matches` is not the regex engine's answer on the value");
+    assert!(!default, "absent value: `matches` must be false");
+    #[cfg(not(test))]
+    unsafe {
+        assert!(RX_CALLS == 1, "the regex engine must be asked exactly once");
+        assert!(RX_HAY_LEN == llen && RX_HAY_PTR == (&raw const LHS_BYTES) as usize, "the engine must see exactly the value's bytes");
+        assert!(RX_WHOLE_UNANCHORED, "the search must be unanchored over the whole value");
+    }
+    kani::cover!(got && llen == 0);
+    kani::cover!(!got && llen == 2);
+    std::mem::forget(s);
+}
+
 // ---------------------------------------------------------------- C17 ------
 
 #[derive(Debug, Clone, PartialEq, serde::Serialize)]
@@ -708,6 +780,83 @@ dispatch_len_harness!(c10_contains_len_13, 13, 3);
 dispatch_len_harness!(c10_contains_len_14, 14, 3);
 dispatch_len_harness!(c10_contains_len_15, 15, 3);
 dispatch_len_harness!(c10_contains_len_16, 16, 3);
+
+// ---- C10: the single-byte shortcut and the scalar fallback ---------------
+// `memchr::memchr` (runtime CPU dispatch through cpuid) is replaced by its
+// contract: the index of the first occurrence. The AVX2 packed-pair finder of
+// `memchr::memmem` (availability decided by cpuid) is reported unavailable, so
+// the finder the real builder constructs is the SSE2 one, whose `find` runs the
+// crate's own Rabin-Karp search on haystacks shorter than one vector.
+
+// Kani resolves a stub path's leading crate name to the FIRST crate of that name, which is std's
+// private copy of memchr; going through `use` items makes rustc's own resolution pick the engine's dependency.
+use memchr::arch::x86_64::avx2::packedpair::Finder as DepAvx2PairFinder;
+use memchr::memchr as dep_memchr;
+
+fn memchr_contract(needle: u8, haystack: &[u8]) -> Option<usize> {
+    let mut i = 0;
+    while i < haystack.len() {
+        if haystack[i] == needle {
+            return Some(i);
+        }
+        i += 1;
+    }
+    None
+}
+
+fn avx2_pair_unavailable(
+    _needle: &[u8],
+    _pair: memchr::arch::all::packedpair::Pair,
+) -> Option<DepAvx2PairFinder> {
+    None
+}
+
+macro_rules! contains_memchr_harness {
+    ($name:ident, $n:expr, $avx2:expr, $unwind:expr) => {
+        #[kani::proof]
+        #[kani::unwind($unwind)]
+        #[kani::stub(crate::ast::index_expr::IndexExpr::compile_with, compile_with_stub)]
+        #[kani::stub(rand::rngs::thread::rng, rng_stub)]
+        #[kani::stub(dep_memchr, memchr_contract)]
+        #[kani::stub(DepAvx2PairFinder::with_pair, avx2_pair_unavailable)]
+        fn $name() {
+            let s = mk_scheme(Type::Bytes, kani::any());
+            let needle: [u8; $n] = kani::any();
+            let l: [u8; 4] = kani::any();
+            let llen: usize = kani::any();
+            kani::assume(llen <= 4);
+            let avx2: bool = $avx2;
+            unsafe {
+                LHS_KIND = 3;
+                LHS_BYTES = [0; 16];
+                LHS_BYTES[0] = l[0];
+                LHS_BYTES[1] = l[1];
+                LHS_BYTES[2] = l[2];
+                LHS_BYTES[3] = l[3];
+                LHS_BYTES_LEN = llen;
+                AVX2 = avx2;
+            }
+            let pat = BytesExpr::new(needle.to_vec(), BytesFormat::Quoted);
+            let (default, got) = run(field_expr(&s, ComparisonOpExpr::Contains(pat)));
+            assert!(got == naive_contains(&l[..llen], &needle), "`contains` differs from naive substring search on the single-byte / scalar path");
+            assert!(!default, "absent value: `contains` must be false");
+            unsafe {
+                assert!(ANCHOR_CALLS == 0, "no SIMD anchor is drawn on the single-byte / scalar path");
+            }
+            kani::cover!(got && llen == 4 && l[0] != needle[0]);
+            // a near miss: the first byte matches (patterns of 2+), or a non-matching value (one-byte pattern)
+            kani::cover!(!got && llen >= $n && (l[0] == needle[0]) == ($n > 1));
+            kani::cover!(got && llen == $n);
+            std::mem::forget(s);
+        }
+    };
+}
+
+// one-byte pattern: the shortcut is taken whatever the latch says
+contains_memchr_harness!(c10_contains_dispatch_n1, 1, kani::any(), 8);
+// scalar fallback (WIREFILTER_USE_AVX2=0 / no AVX2)
+contains_memchr_harness!(c10_contains_scalar_n2, 2, false, 8);
+contains_memchr_harness!(c10_contains_scalar_n3, 3, false, 8);
 
 // ------------------------------------------------------- C09 (byte strings) -
 
